@@ -908,7 +908,7 @@ func init() {
 		Plan: func(tier string) fw.Plan {
 			p := fw.Plan{Batches: 8, TimeoutS: 900, MinNontrivial: 20000, Level: "exploration",
 				Rule:        "for valid MSG chunks of every policy x {Sign, SignAndEncrypt} (sealed by gopcua or by refpeer): every single-byte XOR (all positions x masks 0x01/0x80/0xff; quick: one third), multi-byte changes, truncation to every length >= 8 (MessageSize adjusted or not), extension, chunks sealed with other keys and with the receiver's own sending keys -> the real verifyAndDecrypt must return an error and must not panic; the valid chunk is a control; plus the end-to-end layer over TCP on established channels of the real server and the real client; distinct = distinct mutated chunks",
-				Assumptions: []string{"in-process layer: delivery is observed at verifyAndDecrypt of a detached channel instance (hook file); end-to-end layer: every policy x mode, ~30 hostile variants each way (bit flips per region, truncations, extension, unsigned chunk, other keys, reflected keys, OPN-typed chunk announcing policy None, other channel/token id, retyped) against the real server (effect = node value, inspected in-process) and the real client (effect = value returned by Read)"}}
+				Assumptions: []string{"in-process layer: delivery is observed at verifyAndDecrypt of a detached channel instance (hook file); end-to-end layer: every policy x mode, ~30 hostile variants each way (bit flips per region, truncations, extension, unsigned chunk, other keys, reflected keys, OPN-typed chunk announcing policy None, other channel/token id, retyped; and, as the answer to the real client's OpenSecureChannel request (first exchange and renewal), an unsigned OpenSecureChannelResponse in an OPN chunk naming policy None, which must not open the channel nor install its token) against the real server (effect = node value, inspected in-process) and the real client (effect = value returned by Read)"}}
 			if tier == "thorough" {
 				p.Batches, p.TimeoutS, p.MinNontrivial = 16, 3000, 2000000
 			}
